@@ -226,3 +226,14 @@ fn c45_glv_round_trip_u8() {
     kani::assume(m.pnl_withdrawal_short <= m.pnl_deposit_short && m.pnl_deposit_short <= 10);
     check_glv_round_trip(&m, &any_prices(), kani::any(), kani::any());
 }
+
+//@ prop=C45 tier=experimental kind=finding:glv_round_trip_pnl_factor_order
+//@ enc=glv::get_glv_value_for_market, glv::get_market_token_amount_for_glv_value, LiquidityMarketExt::pool_value (all terms)
+//@ bound=T=u8 DECIMALS=1: the round-trip clause WITHOUT the configuration assumption (max pnl factor for withdrawals <= for deposits <= 100 %): expected to be refuted (capped pnl makes the withdrawal-kind pool value smaller than the deposit-kind one); kept for the lead to decide whether it becomes a known finding; never selected
+//@ timeout=5400 mem=36
+#[kani::proof]
+#[kani::unwind(1)]
+fn c45_glv_round_trip_unconstrained_u8() {
+    let m = full_market();
+    check_glv_round_trip(&m, &any_prices(), kani::any(), kani::any());
+}
